@@ -593,6 +593,11 @@ func (w *world) exec(c core.Cmd, next *int) bool {
 		w.sim.Release(op, c.Out)
 		return true
 	case "adv":
+		if w.cur != nil && len(w.sim.Parked()) > 0 {
+			// time passing while a response is withheld is a fault (slow server)
+			w.cur.faults++
+			w.sim.Probe("fault.slow")
+		}
 		time.Sleep(time.Duration(c.N) * time.Millisecond)
 		return true
 	case "call":
